@@ -140,7 +140,20 @@ def main():
                 rep.harness_error(f"counterexample {v.func}[{v.pin}]({argtxt}) did not reproduce concretely")
     from vk import simpfam
     from vk.report import run_parallel
-    for col in run_parallel(ext_work, simpfam.models_ext(a.tier), a.jobs):
+    extra = []
+    six = [dict(zip(simpfam.SIX, bits)) for bits in __import__("itertools").product((False, True), repeat=6)]
+    osets = [{k: (v if k != "eliminable_variable_expression" else "^zz$") for k, v in o.items() if v} for o in six]
+    for nconst in (1, 2, 3):
+        for tail in ("der(x) = -k1 * x;", "der(x) = -k1 * x + u;", "der(x) = -x;"):
+            ks = [f"k{i}" for i in range(1, nconst + 1)]
+            # every algebraic variable is constant-assigned, and further equations follow the last assignment
+            for order in ("consts-first", "consts-last", "interleaved"):
+                ceqs = [f"  {k} = {i + 2};" for i, k in enumerate(ks)]
+                deq = ["  " + tail]
+                body = ceqs + deq if order == "consts-first" else (deq + ceqs if order == "consts-last" else ceqs[:1] + deq + ceqs[1:])
+                text = "model S\n  input Real u;\n  Real x(start = 1);\n  Real " + ", ".join(ks) + ";\nequation\n" + "\n".join(body) + "\nend S;\n"
+                extra.append((f"allconst[{nconst},{order},{tail}]", text, osets))
+    for col in run_parallel(ext_work, simpfam.models_ext(a.tier) + extra, a.jobs):
         rep.merge(col)
     cov = rep.coverage
     cov["states"] = max(1, n["confirmed"])
@@ -152,7 +165,7 @@ def main():
     cov["bounds"] = ("quick: 4 models (base, affine, deralias, chain3+-) x all 2^6 settings of (eliminate_constant_assignments, replace_constant_values, replace_parameter_expressions, detect_aliases, "
                      "eliminable_variable_expression, factor_and_simplify_equations); thorough: all 47 family models x 2^6, and 8 models x 2^9 adding "
                      "(replace_parameter_values, expand_mx, allow_derivative_aliases)")
-    cov["bounds"] += ("; concrete supplementary stage: every model of the extended C14 families (alias links and cycles, 15 equation orientations, badly scaled affine systems) that is "
+    cov["bounds"] += ("; concrete supplementary stage: every model of the extended C14 families (alias links and cycles, 15 equation orientations, badly scaled affine systems) and of a family where every algebraic variable is constant-assigned with further equations before/after, that is "
                       "balanced and has a nonsingular Jacobian at a generic point, under the option sets C14 uses for it")
     rep.assumptions += ["the model family is square and uniquely solvable by construction (vk/simpfam.py)",
                         "an exception from simplify() counts as a failure of C15 (no option set in the family raises on the unchanged tree)",
